@@ -219,6 +219,30 @@ pub fn closure(spec: &AppSpec, inputs: &[(usize, Mode)]) -> Vec<usize> {
     seen
 }
 
+/// Known-finding shape (C04): in the blueprint that designates the constructor of `ty`, the
+/// designated *fallible* variant is registered, then another *infallible* variant, then the fallible
+/// one again ("A, B, A"): the latest registration is A, but the compiler keeps B (the `Ok`-matcher of
+/// A is interned once, at A's first registration, i.e. before B).
+pub fn fallible_reregistered_after_infallible(spec: &AppSpec, scope: &[usize], ty: usize) -> bool {
+    for regs in scopes(spec, scope).iter().rev() {
+        let seq: Vec<u8> = regs.iter().filter_map(|r| match r { Reg::Ctor { ty: t, variant } if *t == ty => Some(*variant), _ => None }).collect();
+        if seq.is_empty() {
+            continue;
+        }
+        let last = *seq.last().unwrap();
+        let t = &spec.types[ty];
+        if t.fallible_of(last).is_none() {
+            return false;
+        }
+        // an earlier registration of `last`, followed by an infallible other variant
+        if let Some(first) = seq.iter().position(|v| *v == last) {
+            return seq[first + 1..seq.len() - 1].iter().any(|v| *v != last && t.fallible_of(*v).is_none());
+        }
+        return false;
+    }
+    false
+}
+
 pub fn expected_by(spec: &AppSpec, k: usize, scope: &[usize], ty: usize) -> Option<String> {
     resolve_ctor(spec, scope, ty).map(|v| ctor_name(k, ty, v))
 }
